@@ -4,6 +4,7 @@ import (
 	"fmt"
 	"go/token"
 	"go/types"
+	"strings"
 
 	"golang.org/x/tools/go/ssa"
 
@@ -613,6 +614,27 @@ func w5PlayConnProps(p *model.Prog, r *report.Result, rule string) {
 	}
 }
 
+// connPropsBeforeObserver: the subscriber's write queue and deadline are in place before the
+// session is handed to the observer (from which instant the fan-out may write to it): in
+// rtmp.ServerSession.doPlay, with helpers and closure / bound-method arguments inlined, no path
+// reaches the observer call OnNewRtmpSubSession without having passed modConnProps().
+func connPropsBeforeObserver(p *model.Prog, fnName, obsName string) (bool, string) {
+	mod := p.MethodObj("pkg/rtmp", "ServerSession", "modConnProps")
+	fn := p.Method("pkg/rtmp", "ServerSession", fnName)
+	isMod := func(d model.DeepInstr) bool {
+		ci, ok := d.In.(ssa.CallInstruction)
+		return ok && model.SameFunc(model.CalleeObj(ci.Common()), mod)
+	}
+	isObs := func(d model.DeepInstr) bool { return invokedMethodName(d) == obsName }
+	nObs := model.CountDeep(fn, 2, isObs)
+	early := model.DeepPathQuery{Root: fn, Depth: 2, Stop: isMod, Target: isObs}.Find()
+	pos := p.Pos(fn.Pos())
+	if early != nil {
+		pos = p.InstrPos(early.In)
+	}
+	return nObs >= 1 && early == nil, pos
+}
+
 // w5PullName: the relay pull is started on the stream the answer names.
 func w5PullName(p *model.Prog, r *report.Result, rule string) {
 	r.Rule(rule, "ServerManager.CtrlStartRelayPull looks the group up (getOrCreateGroup) under the same value it reports as Data.StreamName - the name derived from the url when the request carries none: start conditions are evaluated, and stop/kick find the pull, on the stream the caller was told")
@@ -810,4 +832,22 @@ func w5SizeCount(p *model.Prog, r *report.Result, rule string) {
 	if n < 1 {
 		r.Bad(rule, "floor", "", "no counted decrease of RtpPacketList.Size found")
 	}
+}
+
+// invokedMethodName: the interface method a call instruction invokes - directly (x.M(...)) or
+// through a bound method value x.M that was handed to a helper and is called there ("" otherwise).
+func invokedMethodName(d model.DeepInstr) string {
+	ci, ok := d.In.(ssa.CallInstruction)
+	if !ok {
+		return ""
+	}
+	if ci.Common().IsInvoke() {
+		return ci.Common().Method.Name()
+	}
+	if mc, isMc := model.Unwrap(d.Resolve(ci.Common().Value)).(*ssa.MakeClosure); isMc {
+		if f, isFn := mc.Fn.(*ssa.Function); isFn && f.Synthetic != "" && strings.HasSuffix(f.Name(), "$bound") {
+			return strings.TrimSuffix(f.Name(), "$bound")
+		}
+	}
+	return ""
 }
